@@ -1420,6 +1420,11 @@ func (e *lexEnv) readerCase(ctx *Ctx, c *lexCodec, doc []byte, h lexHints, origi
 		if m := e.nesting(d.it, root); m != "" {
 			e.violate(ctx, "C04", "nesting", "xml:children-reparented", m+": decoded "+d.it.Render()+";"+show, line)
 		}
+		// C02: structure extents, judged by the independent token walk — a decoded structure has exactly the child
+		// elements of its own element, none lost to the level above and none taken from it (hostile_extent.go)
+		if m := extentChildren(e, d.it, root); m != "" {
+			e.violate(ctx, "C02", "structure-extent", "xml:structure-children-mismatch", m+": decoded "+shortKey([]byte(d.it.Render()))+";"+show, line)
+		}
 	}
 }
 
